@@ -213,11 +213,11 @@ func procsUnder(dir string) []string {
 	return out
 }
 
-func (rn *runner) runBatch(b *Batch, dl *DeadlineJob) *runObs {
+func (rn *runner) runBatch(b *Batch, dl *DeadlineJob, sched []int) *runObs {
 	n := rn.nrun.Add(1)
 	dir := filepath.Join(rn.work, fmt.Sprintf("run-%d", n))
 	ro := &runObs{dir: dir, finalTree: map[string]string{}}
-	for _, d := range []string{"", "tmp", "bin", "obs", "scripts", "wroot", "cover"} {
+	for _, d := range []string{"", "tmp", "bin", "obs", "scripts", "wroot", "cover", "outside"} {
 		os.MkdirAll(filepath.Join(dir, d), 0o777)
 		os.Chmod(filepath.Join(dir, d), 0o777)
 	}
@@ -240,6 +240,9 @@ func (rn *runner) runBatch(b *Batch, dl *DeadlineJob) *runObs {
 	job := Job{Kind: "batch", Batch: *b, Dir: dir, Helper: helper, WorkRoot: filepath.Join(dir, "wroot"), Out: filepath.Join(dir, "obs", "result.json"), Deadline: dl}
 	if dl != nil {
 		job.Kind = "deadline"
+	}
+	if sched != nil {
+		job.Gated, job.Sched = true, sched
 	}
 	jb, _ := json.Marshal(job)
 	jobPath := filepath.Join(dir, "job.json")
@@ -339,6 +342,16 @@ func (rn *runner) runBatch(b *Batch, dl *DeadlineJob) *runObs {
 		if removeEscaped(p) {
 			ro.escaped = append(ro.escaped, "/"+p)
 		}
+	}
+	// entries whose names leave the work directory (File.Escape) all point into the scratch directory
+	for _, sub := range []string{"tmp", "wroot", "outside"} {
+		filepath.WalkDir(filepath.Join(dir, sub), func(p string, d os.DirEntry, err error) error {
+			if err == nil && !d.IsDir() && reEscapedFile.MatchString(d.Name()) {
+				rel, _ := filepath.Rel(dir, p)
+				ro.escaped = append(ro.escaped, "$RUN/"+reTmpRoot.ReplaceAllString(rel, "go-test-script*"))
+			}
+			return nil
+		})
 	}
 	ents, _ := os.ReadDir(filepath.Join(dir, "tmp"))
 	for _, e := range ents {
@@ -488,9 +501,10 @@ func canonScript(o *ScriptObs, rundir, final string, present bool) string {
 		wp, setup, len(o.Probes), pb.String(), final)
 }
 
+var reEscapedFile = regexp.MustCompile(`^verif_c04_(up|planted|abs|home)_[a-z0-9]+\.txt$`)
+var reTmpRoot = regexp.MustCompile(`go-test-script[0-9]+`)
 var reExit = regexp.MustCompile(` exit=(\w+)`)
 var reConds = regexp.MustCompile(` conds=\([^)]*\)`)
-var reFinal = regexp.MustCompile(` final=\[[^\]]*\]`)
 
 // splitModel: per-script canonical strings (without exit= and conds=), their exit kinds, the shared tail.
 func splitModel(ans string) (scripts, exits []string, tail string) {
@@ -520,6 +534,9 @@ func expectedSetupTree(s *Script) (string, bool) {
 	}
 	t := map[string]*node{".tmp": {dir: true}}
 	for _, f := range s.Files {
+		if f.Escape != "" {
+			return "", false // the name leaves the work directory: setup has to refuse it
+		}
 		segs := strings.Split(f.Path, "/")
 		for i := 1; i < len(segs); i++ {
 			p := strings.Join(segs[:i], "/")
@@ -578,7 +595,7 @@ func (rn *runner) aloneCanon(b *Batch, i int) (string, string) {
 	}
 	rn.aloneMu.Unlock()
 	ar.once.Do(func() {
-		ro := rn.runBatch(&one, nil)
+		ro := rn.runBatch(&one, nil, nil)
 		defer ro.cleanup()
 		if ro.res == nil || len(ro.res.Scripts) != 1 {
 			ar.err = "solitary run produced no result: " + tail(ro.output, 400)
@@ -599,7 +616,7 @@ func tail(s string, n int) string {
 }
 
 // evalBatch runs the batch, applies every oracle and compares with the model.
-func (rn *runner) evalBatch(b *Batch, withAlone bool) ([]finding, *runObs) {
+func (rn *runner) evalBatch(b *Batch, withAlone bool, sched []int) ([]finding, *runObs) {
 	var fs []finding
 	add := func(kind, oracle, detail, model, impl string) {
 		fs = append(fs, finding{kind, oracle, detail, model, impl})
@@ -608,7 +625,7 @@ func (rn *runner) evalBatch(b *Batch, withAlone bool) ([]finding, *runObs) {
 		add("correspondence", "spec-refused", err.Error(), "", "")
 		return fs, &runObs{dir: filepath.Join(rn.work, "refused"), finalTree: map[string]string{}}
 	}
-	ro := rn.runBatch(b, nil)
+	ro := rn.runBatch(b, nil, sched)
 	if strings.Contains(ro.output, "DATA RACE") {
 		add("impl-violation", "race-detector", "the race detector reported a data race while the batch ran: "+tail(ro.output, 1500), "", "")
 	}
@@ -626,7 +643,7 @@ func (rn *runner) evalBatch(b *Batch, withAlone bool) ([]finding, *runObs) {
 	}
 	// ---- direct oracles
 	if len(ro.escaped) > 0 {
-		add("impl-violation", "workdir/escape", "archive entries named $WORK/<name> were unpacked outside the work directory, at "+strings.Join(ro.escaped, ", ")+" (removed again)", "", "")
+		add("impl-violation", "workdir/escape", "archive entries were unpacked outside the work directory of their script, at "+strings.Join(ro.escaped, ", "), "", "")
 	}
 	if len(ro.alive) > 0 {
 		add("impl-violation", "process-left", "processes started by the scripts are still alive after RunT returned: pids "+strings.Join(ro.alive, ","), "", "")
@@ -719,14 +736,15 @@ func (rn *runner) evalBatch(b *Batch, withAlone bool) ([]finding, *runObs) {
 			}
 		}
 	}
-	req := b.modelRequest(ro.isRoot, normEnv, hostTab, "helper", nil)
+	// the model under the schedule the run was driven through (gated runs), and under another one
+	req := b.modelRequest(ro.isRoot, normEnv, hostTab, "helper", sched)
 	ans := rn.ask(req)
-	var sched []int
+	var sched2 []int
 	r := common.NewRNG(uint64(len(req)) + rn.f.Seed)
 	for k := 0; k < 4*len(b.Scripts); k++ {
-		sched = append(sched, r.Intn(len(b.Scripts)))
+		sched2 = append(sched2, r.Intn(len(b.Scripts)))
 	}
-	ans2 := rn.ask(b.modelRequest(ro.isRoot, normEnv, hostTab, "helper", sched))
+	ans2 := rn.ask(b.modelRequest(ro.isRoot, normEnv, hostTab, "helper", sched2))
 	if ans != ans2 {
 		add("correspondence", "model/schedule-dependent", "the model gives different answers under two schedules", ans, ans2)
 	}
@@ -740,10 +758,6 @@ func (rn *runner) evalBatch(b *Batch, withAlone bool) ([]finding, *runObs) {
 	}
 	for i := range canon {
 		m, c := ms[i], canon[i]
-		if exits[i] == "setupfail" {
-			m = reFinal.ReplaceAllString(m, " final=*")
-			c = reFinal.ReplaceAllString(c, " final=*")
-		}
 		rn.rmu.Lock()
 		rn.res.Count("exit:" + exits[i])
 		rn.rmu.Unlock()
@@ -771,10 +785,10 @@ func flatEnv(ps []ProbeObs) []string {
 
 // ---------------------------------------------------------------- shrinking and reporting
 
-func (rn *runner) hasFinding(b *Batch, oracle string) bool {
+func (rn *runner) hasFinding(b *Batch, oracle string, sched []int) bool {
 	withAlone := strings.HasPrefix(oracle, "isolation/")
 	for try := 0; try < 2; try++ {
-		fs, ro := rn.evalBatch(b, withAlone)
+		fs, ro := rn.evalBatch(b, withAlone, sched)
 		ro.cleanup()
 		for _, f := range fs {
 			if f.oracle == oracle {
@@ -785,7 +799,7 @@ func (rn *runner) hasFinding(b *Batch, oracle string) bool {
 	return false
 }
 
-func (rn *runner) shrink(b *Batch, oracle string) *Batch {
+func (rn *runner) shrink(b *Batch, oracle string, sched []int) *Batch {
 	cur := *b
 	minScripts := 1
 	if strings.HasPrefix(oracle, "isolation/") {
@@ -797,7 +811,7 @@ func (rn *runner) shrink(b *Batch, oracle string) *Batch {
 			return false
 		}
 		budget--
-		return rn.hasFinding(c, oracle)
+		return rn.hasFinding(c, oracle, sched)
 	}
 	cur.Scripts = common.ShrinkList(cur.Scripts, func(ss []Script) bool {
 		if len(ss) < minScripts {
@@ -826,7 +840,7 @@ func (rn *runner) shrink(b *Batch, oracle string) *Batch {
 	return &cur
 }
 
-func (rn *runner) report(b *Batch, fs []finding, doShrink bool) {
+func (rn *runner) report(b *Batch, fs []finding, doShrink bool, sched []int) {
 	seen := map[string]bool{}
 	for _, f := range fs {
 		if seen[f.oracle] {
@@ -839,7 +853,7 @@ func (rn *runner) report(b *Batch, fs []finding, doShrink bool) {
 		first := rn.nshrunk[f.oracle] <= 2 // at most two witnesses per oracle are minimised
 		rn.rmu.Unlock()
 		if doShrink && first && f.oracle != "hang" && f.oracle != "race-detector" {
-			mb = rn.shrink(b, f.oracle)
+			mb = rn.shrink(b, f.oracle, sched)
 		}
 		j, _ := json.Marshal(mb)
 		var txt strings.Builder
@@ -856,8 +870,8 @@ func (rn *runner) report(b *Batch, fs []finding, doShrink bool) {
 	}
 }
 
-func (rn *runner) one(b *Batch, tag string, doShrink bool) {
-	fs, ro := rn.evalBatch(b, true)
+func (rn *runner) one(b *Batch, tag string, doShrink bool, sched []int) {
+	fs, ro := rn.evalBatch(b, true, sched)
 	rn.rmu.Lock()
 	rn.res.Count("src:" + tag)
 	rn.res.Count(fmt.Sprintf("scripts:%d", len(b.Scripts)))
@@ -893,100 +907,185 @@ func (rn *runner) one(b *Batch, tag string, doShrink bool) {
 	rn.rmu.Unlock()
 	ro.cleanup()
 	if len(fs) > 0 {
-		rn.report(b, fs, doShrink)
+		rn.report(b, fs, doShrink && sched == nil, sched)
 	}
 }
 
-func loadSpec(path string) (*Batch, error) {
+// loadSpec reads a batch (and the schedule it was driven through, if any) from a replay file written
+// by ./check or from a plain batch file of the corpus.
+func loadSpec(path string) (*Batch, []int, error) {
 	data, err := os.ReadFile(path)
 	if err != nil {
-		return nil, err
+		return nil, nil, err
 	}
 	var rp struct {
 		Violation struct {
 			Input map[string]string `json:"input"`
 		} `json:"violation"`
-		Scripts []Script `json:"scripts"`
 	}
 	if err := json.Unmarshal(data, &rp); err != nil {
-		return nil, err
+		return nil, nil, err
 	}
 	var b Batch
 	if s := rp.Violation.Input["spec"]; s != "" {
 		if err := json.Unmarshal([]byte(s), &b); err != nil {
-			return nil, err
+			return nil, nil, err
 		}
-		return &b, nil
+		return &b, parseSched(rp.Violation.Input["sched"]), nil
 	}
 	if err := json.Unmarshal(data, &b); err != nil {
-		return nil, err
+		return nil, nil, err
 	}
-	if len(b.Scripts) == 0 {
-		return nil, fmt.Errorf("%s: no scripts", path)
+	return &b, nil, nil
+}
+
+func schedString(sched []int) string {
+	if sched == nil {
+		return ""
 	}
-	return &b, nil
+	ss := make([]string, len(sched))
+	for i, x := range sched {
+		ss[i] = strconv.Itoa(x)
+	}
+	return "[" + strings.Join(ss, " ") + "]"
+}
+
+func parseSched(s string) []int {
+	if s == "" {
+		return nil
+	}
+	out := []int{}
+	for _, f := range strings.Fields(strings.Trim(s, "[]")) {
+		if x, err := strconv.Atoi(f); err == nil {
+			out = append(out, x)
+		}
+	}
+	return out
+}
+
+// interleavings enumerates every merge of counts[i] turns of script i (at most limit of them).
+func interleavings(counts []int, limit int) [][]int {
+	var out [][]int
+	left := append([]int{}, counts...)
+	var cur []int
+	var rec func()
+	rec = func() {
+		if len(out) >= limit {
+			return
+		}
+		done := true
+		for i := range left {
+			if left[i] > 0 {
+				done = false
+				left[i]--
+				cur = append(cur, i)
+				rec()
+				cur = cur[:len(cur)-1]
+				left[i]++
+			}
+		}
+		if done {
+			out = append(out, append([]int{}, cur...))
+		}
+	}
+	rec()
+	return out
+}
+
+// turns: a script of n actions takes n+1 turns of a gated run (Parallel to the first gate, then one
+// per line; the last one runs to the end of the script).
+func turns(s *Script) int { return len(s.Body) + 1 }
+
+// escapeBatch is the two-script archive of the entry-name defect: a's archive names files outside its
+// work directory, among them one inside b's.
+func escapeBatch() Batch {
+	a := Script{Name: "a", Files: []File{{Path: "a.txt", Data: "x\n"}, {Escape: "up", Data: "up\n"}, {Escape: "sibling:b", Data: "planted by a\n"},
+		{Escape: "abs", Data: "absolute\n"}, {Escape: "home", Data: "via HOME\n"}}, Body: []Action{{Op: "O"}}}
+	b := Script{Name: "b", DelayMs: 250, Files: []File{{Path: "own.txt", Data: "y\n"}}, Body: []Action{{Op: "O"}}}
+	return Batch{Procs: 2, Par: 8, Canary: true, Scripts: []Script{a, b}}
+}
+
+type item struct {
+	b     Batch
+	tag   string
+	sched []int // nil: free-running
 }
 
 func (rn *runner) mainC04() {
 	f, res := rn.f, rn.res
 	if f.Replay != "" {
-		b, err := loadSpec(f.Replay)
+		b, sched, err := loadSpec(f.Replay)
 		if err != nil {
 			res.Notes = append(res.Notes, "cannot load replay: "+err.Error())
 			res.Violate(common.Violation{Kind: "correspondence", Oracle: "replay", Key: "replay", Detail: err.Error(), Input: map[string]string{}})
 			return
 		}
 		for i := 0; i < 3; i++ {
-			rn.one(b, "replay", false)
+			rn.one(b, "replay", false, sched)
 		}
 		res.Rule = "replay of one recorded batch (three runs)"
 		return
 	}
-	var batches []struct {
-		b   Batch
-		tag string
-	}
-	addB := func(b Batch, tag string) {
-		batches = append(batches, struct {
-			b   Batch
-			tag string
-		}{b, tag})
+	var items []item
+	addB := func(b Batch, tag string) { items = append(items, item{b, tag, nil}) }
+	addG := func(b Batch, tag string, sched []int) {
+		if sched == nil {
+			sched = []int{}
+		}
+		items = append(items, item{b, tag, sched})
 	}
 	// 1. corpus
 	if f.Corpus != "" {
 		ents, _ := filepath.Glob(filepath.Join(f.Corpus, "*.json"))
 		sort.Strings(ents)
 		for _, e := range ents {
-			if b, err := loadSpec(e); err == nil {
-				addB(*b, "corpus")
+			if b, sched, err := loadSpec(e); err == nil {
+				items = append(items, item{*b, "corpus", sched})
 				if rn.nonRoot {
 					nb := *b
 					nb.NonRoot = !b.NonRoot
-					addB(nb, "corpus")
+					items = append(items, item{nb, "corpus", sched})
 				}
 			} else {
 				res.Notes = append(res.Notes, "corpus file skipped: "+err.Error())
 			}
 		}
 	}
-	// 2. hand-written batches: the execCache pair in both orders, every exit path with defers and
-	//    background processes, read-only directories, under every retention mode
+	// 2. hand-written batches: the execCache pair in both start orders and, gated, under every
+	//    interleaving of its lines; the entry-name pair; a batch without scripts; every exit path with
+	//    defers, background processes and read-only directories under every retention mode, also with
+	//    ContinueOnError
 	pair := execCachePair()
 	addB(pair, "hand")
 	rev := execCachePair()
 	rev.Scripts[0].DelayMs, rev.Scripts[1].DelayMs = 250, 0
 	addB(rev, "hand")
-	for _, retain := range []string{"", "testwork", "workdirroot", "flag"} {
+	gp := execCachePair()
+	gp.Scripts[1].DelayMs = 0
+	for _, sc := range interleavings([]int{turns(&gp.Scripts[0]), turns(&gp.Scripts[1])}, 64) {
+		addG(gp, "gated-enumerated", sc)
+	}
+	eb := escapeBatch()
+	addB(eb, "hand")
+	eb2 := escapeBatch()
+	eb2.Retain, eb2.NonRoot = "workdirroot", rn.nonRoot
+	addB(eb2, "hand")
+	for _, retain := range []string{"", "testwork"} {
+		addB(Batch{Retain: retain, Procs: 2, Canary: true}, "empty")
+	}
+	for k, retain := range []string{"", "testwork", "workdirroot", "flag"} {
 		hb := exitPathsBatch()
 		hb.Retain = retain
 		hb.NonRoot = rn.nonRoot
+		hb.ContinueOnError = k%2 == 1
 		addB(hb, "hand")
 	}
-	// 3. generated batches, each run under two settings of GOMAXPROCS / parallelism / delays
+	// 3. generated batches, each run free under three settings of GOMAXPROCS / parallelism / delays
+	//    and gated under two schedules (one random, one script after the other in reverse order)
 	r := common.NewRNG(f.Seed)
-	n := 18
+	n := rn.size("TSBATCH_C04_QUICK", 14)
 	if f.Tier == "thorough" {
-		n = 300
+		n = rn.size("TSBATCH_C04_THOROUGH", 250)
 	}
 	for i := 0; i < n; i++ {
 		b := genBatch(r, rn.nonRoot)
@@ -1002,6 +1101,27 @@ func (rn *runner) mainC04() {
 			}
 			addB(v, "generated-variant")
 		}
+		g := b
+		g.Scripts = append([]Script{}, b.Scripts...)
+		for k := range g.Scripts {
+			g.Scripts[k].DelayMs = 0
+		}
+		var sc []int
+		total := 0
+		for k := range g.Scripts {
+			total += turns(&g.Scripts[k])
+		}
+		for k := 0; k < total; k++ {
+			sc = append(sc, r.Intn(len(g.Scripts)))
+		}
+		addG(g, "gated-random", sc)
+		var seq []int
+		for k := len(g.Scripts) - 1; k >= 0; k-- {
+			for t := 0; t < turns(&g.Scripts[k]); t++ {
+				seq = append(seq, k)
+			}
+		}
+		addG(g, "gated-sequential", seq)
 	}
 	workers := 5
 	var wg sync.WaitGroup
@@ -1011,16 +1131,60 @@ func (rn *runner) mainC04() {
 		go func() {
 			defer wg.Done()
 			for i := range ch {
-				rn.one(&batches[i].b, batches[i].tag, true)
+				if len(items[i].b.Scripts) == 0 {
+					rn.emptyBatch(&items[i].b)
+				} else {
+					rn.one(&items[i].b, items[i].tag, true, items[i].sched)
+				}
 			}
 		}()
 	}
-	for i := range batches {
+	for i := range items {
 		ch <- i
 	}
 	close(ch)
 	wg.Wait()
-	res.Rule = fmt.Sprintf("corpus batches, the execCache pair in both start orders, a hand-written batch covering every exit path (pass, fail, skip, stop, setup failure, panicking custom command, panicking deferred function) with defers, background processes and read-only directories under each retention mode, then %d generated batches of 2-8 scripts, each run under three settings of GOMAXPROCS / subtest parallelism / start delays / verbosity; every script is also run alone; children built with -race, unprivileged when possible; a batch is non-trivial when some script has defers, background processes, probes or does not pass; distinct = distinct (retention, verdicts, defer orders, probe counts)", n)
+	res.Rule = fmt.Sprintf("corpus batches; the execCache pair in both start orders and, with the harness holding the turn (a T whose Parallel parks the subtest and a gate command before every script line), under all %d interleavings of its lines; the pair whose archive names files outside the work directory; RunT without any script; a hand-written batch covering every exit path (pass, fail, skip, stop, setup failure, panicking custom command, panicking deferred function) with defers, background processes and read-only directories under each retention mode, with and without ContinueOnError; then %d generated batches of 2-8 scripts (with kill / kill+wait, ContinueOnError, $WORK-named and escaping archive entries), each run free under three settings of GOMAXPROCS / subtest parallelism / start delays / verbosity and gated under a random and a sequential schedule, the model being asked for the same schedule; every script is also run alone; children built with -race, unprivileged when possible; a batch is non-trivial when some script has defers, background processes, probes or does not pass; distinct = distinct (retention, verdicts, defer orders, probe counts)",
+		len(interleavings([]int{turns(&gp.Scripts[0]), turns(&gp.Scripts[1])}, 64)), n)
+}
+
+// size reads a run size from the environment (props: runner_env), with a default.
+func (rn *runner) size(name string, dflt int) int {
+	if v, err := strconv.Atoi(os.Getenv(name)); err == nil && v > 0 {
+		return v
+	}
+	return dflt
+}
+
+// emptyBatch: RunT with Params.Files non-nil and empty must leave nothing behind either.
+func (rn *runner) emptyBatch(b *Batch) {
+	ro := rn.runBatch(b, nil, nil)
+	defer ro.cleanup()
+	rn.rmu.Lock()
+	defer rn.rmu.Unlock()
+	rn.res.Count("src:empty")
+	rn.res.Count("retain:" + b.Retain)
+	rn.res.Case("empty|"+b.Retain, true)
+	j, _ := json.Marshal(b)
+	in := map[string]string{"spec": string(j), "scripts_text": "(no script: testscript.Params{Files: []string{}})"}
+	if ro.res == nil || ro.timedOut {
+		rn.res.Violate(common.Violation{Kind: "correspondence", Oracle: "child-crashed", Key: "empty-crash", Input: in, Detail: tail(ro.output, 800)})
+		return
+	}
+	ans := rn.ask(fmt.Sprintf("empty %s 0", b01(b.Retain != "")))
+	wantLeft := 0
+	if strings.Contains(ans, "root=1") {
+		wantLeft = 1
+	}
+	if b.Retain == "" && len(ro.tmpLeft) > 0 {
+		rn.res.Count("finding:leftover/empty-batch")
+		rn.res.Violate(common.Violation{Kind: "impl-violation", Oracle: "leftover/empty-batch", Key: "leftover/empty-batch", Input: in,
+			Detail: "RunT was called with Params.Files non-nil and empty: it returned normally and left the temporary root behind: " + strings.Join(ro.tmpLeft, ",")})
+	}
+	if len(ro.tmpLeft) != wantLeft {
+		rn.res.Violate(common.Violation{Kind: "correspondence", Oracle: "model/empty-batch", Key: "model/empty-batch:" + b.Retain, Input: in,
+			Model: ans, Impl: fmt.Sprintf("%d entries left", len(ro.tmpLeft))})
+	}
 }
 
 // exitPathsBatch: one script per exit path, each with deferred functions, a background process and a
